@@ -251,8 +251,8 @@ func genCertSpec(rt *rapid.T) certSpec {
 		s.ExclEmail = subsetOf(rt, "exclemail", emailConstraints, 1)
 		s.PermURI = subsetOf(rt, "permuri", uriConstraints, 1)
 		s.ExclURI = subsetOf(rt, "excluri", uriConstraints, 1)
-		s.PermIP = subsetOf(rt, "permip", ipNets, 2)
-		s.ExclIP = subsetOf(rt, "exclip", ipNets, 1)
+		s.PermIP = genIPNets(rt, "permip", 2)
+		s.ExclIP = genIPNets(rt, "exclip", 1)
 		s.NCCritical = rapid.Bool().Draw(rt, "nccrit")
 	}
 	if rapid.Bool().Draw(rt, "ski") {
@@ -271,6 +271,24 @@ func genCertSpec(rt *rapid.T) certSpec {
 		s.Policies = dedupOIDs(s.Policies)
 	}
 	return s
+}
+
+// genIPNets draws IP ranges of both families with EVERY prefix length (the
+// last mask octet then takes all nine values 00 80 c0 .. fe ff), or one of the
+// fixed ranges.
+func genIPNets(rt *rapid.T, label string, max int) []ipNetSpec {
+	n := rapid.IntRange(0, max).Draw(rt, label+"-n")
+	var out []ipNetSpec
+	for i := 0; i < n; i++ {
+		if rapid.IntRange(0, 3).Draw(rt, label+"-fixed") == 0 {
+			out = append(out, ipNets[rapid.IntRange(0, len(ipNets)-1).Draw(rt, label)])
+			continue
+		}
+		size := rapid.SampledFrom([]int{4, 4, 16}).Draw(rt, label+"-family")
+		ip := rapid.SliceOfN(rapid.Byte(), size, size).Draw(rt, label+"-ip")
+		out = append(out, ipNetSpec{IP: ip, Ones: rapid.IntRange(0, 8*size).Draw(rt, label+"-ones")})
+	}
+	return out
 }
 
 func dedupOIDs(in [][]int) [][]int {
